@@ -350,6 +350,9 @@ func (m *model) nftTransfer() {
 	if !m.credit(c.Recipient, token, nonce, qty, p) {
 		return
 	}
+	if c.Mint {
+		m.vd.SupplyDelta = append(m.vd.SupplyDelta, m.vd.Moved...)
+	}
 	if len(c.Args) > 4 && IsContract(c.Recipient) {
 		if !validCallName(c.Args[4]) {
 			m.anyOut = true
@@ -547,6 +550,9 @@ func (m *model) multiTransfer() {
 	}
 	m.vd.Moved = moved
 	m.vd.MovedTo = c.Recipient
+	if c.Mint {
+		m.vd.SupplyDelta = append(m.vd.SupplyDelta, moved...)
+	}
 	if len(c.Args) > minArgs && IsContract(c.Recipient) {
 		if !validCallName(c.Args[minArgs]) {
 			m.anyOut = true
@@ -566,7 +572,16 @@ func (m *model) needRole(addr []byte, token []byte, role string) bool {
 		return false
 	}
 	if !hasRole(r, role) {
-		m.mustFail(P("C03"), "%x does not hold role %s for token %q (holds %q)", addr, role, token, sortedRoles(r))
+		props := P("C03")
+		switch m.c.Func {
+		case FnNFTAddURI, FnNFTUpdateAttrs:
+			props = append(props, "C08") // only a role holder may alter metadata
+		case FnNFTCreate:
+			props = append(props, "C07")
+		case FnLocalMint, FnLocalBurn, FnNFTAddQuantity, FnNFTBurn:
+			props = append(props, "C02")
+		}
+		m.mustFail(props, "%x does not hold role %s for token %q (holds %q)", addr, role, token, sortedRoles(r))
 		return false
 	}
 	return true
@@ -708,7 +723,7 @@ func (m *model) nftCreate() {
 	}
 	key := TokenKey(token, next)
 	if raw := m.preRaw(c.Caller, key); len(raw) != 0 {
-		m.mustFail(P("C07"), "the creator already holds an entry under nonce %d of %q (counter %d)", next, token, cur)
+		m.mustFail(P("C07", "C02"), "the creator already holds an entry under nonce %d of %q (counter %d): the create would not be under a fresh nonce", next, token, cur)
 		return
 	}
 	roy := be(c.Args[3])
